@@ -7,7 +7,7 @@
 From Coq Require Import List NArith ZArith Bool Arith.
 From Verif Require Import Harness.
 From VerifModel Require Import C21.
-From VerifProof Require Import C21Proofs.
+From VerifProof Require Import C21Proofs C21Total.
 Import ListNotations.
 Open Scope N_scope.
 
@@ -22,6 +22,18 @@ Theorem C21_read_build : forall rs ws tail bs vs,
   rds rs (bs ++ tail) = Some (vs, tail).
 Proof. exact read_build. Qed.
 Print Assumptions C21_read_build.
+
+(* the domain on which the premise [expects ... = Some vs] always holds: every well-formed
+   program (64-bit integers in range, OID arcs < 2^28, civil times; [wf_w]) is matched by its
+   canonical read program (one reader per writer, [reader_of]) - so for every such program
+   the Builder accepts, reading back succeeds, returns the written values [vs] and leaves
+   exactly the trailing bytes *)
+Theorem C21_canonical_read_back : forall ws bs tail,
+  forallb wf_w ws = true -> build ws = Some bs -> blen bs < LIM ->
+  exists vs, expects (map reader_of ws) ws tail = Some vs /\
+             rds (map reader_of ws) (bs ++ tail) = Some (vs, tail).
+Proof. exact canonical_read_back. Qed.
+Print Assumptions C21_canonical_read_back.
 
 (* the Builder as written (one shared buffer, reserved length bytes, flushChild's
    back-patching, the content shift for long-form DER lengths, sticky errors) computes
